@@ -5,13 +5,22 @@ from .qnum import Q
 class RefStat:
     """Closed-form running statistic: uniform mean (static) or sum alpha(1-alpha)^(n-i) v_i (dynamic)."""
 
-    def __init__(self, dyn, alpha):
+    def __init__(self, dyn, alpha, fast=False):
         self.dyn, self.alpha, self.vals = dyn, alpha, []
+        # fast: the same closed forms evaluated by Horner's scheme / a running sum (O(1) per value) - for streams of
+        # thousands of calls, where re-summing the whole history at every call would be quadratic
+        self.fast, self._acc, self._n = fast, 0, 0
 
     def add(self, v):
+        if self.fast:
+            self._acc = ((1 - self.alpha) * self._acc + self.alpha * v) if self.dyn else self._acc + v
+            self._n += 1
+            return
         self.vals.append(v)
 
     def get(self):
+        if self.fast:
+            return 0 if self._n == 0 else (self._acc if self.dyn else self._acc / self._n)
         n = len(self.vals)
         if n == 0:
             return 0
@@ -30,13 +39,13 @@ class RefStat:
 class RefMulti:
     """Per-key statistic since first appearance, zero-filled when omitted."""
 
-    def __init__(self, dyn, alpha):
-        self.dyn, self.alpha, self.keys, self.n = dyn, alpha, {}, 0
+    def __init__(self, dyn, alpha, fast=False):
+        self.dyn, self.alpha, self.keys, self.n, self.fast = dyn, alpha, {}, 0, fast
 
     def add(self, d):
         for k in d:
             if k not in self.keys:
-                self.keys[k] = RefStat(self.dyn, self.alpha)
+                self.keys[k] = RefStat(self.dyn, self.alpha, getattr(self, 'fast', False))
         for k, rs in self.keys.items():
             rs.add(d[k] if k in d else 0)
         self.n += 1
